@@ -73,6 +73,10 @@ class SpecUndefined(Exception):
     """Neither the documentation nor Appendix A defines an answer (only 'must not crash')."""
 
 
+class MatchRaised(SpecUndefined):
+    """The library's scalar comparison itself raised (C12/C15 territory): no answer is defined here."""
+
+
 class SpecUnsupported(Exception):
     """Segment kind outside this oracle (keyword segments are C13's)."""
 
@@ -127,12 +131,13 @@ class QueryResult(list):
 
 
 class _Ctx(object):
-    __slots__ = ("defects", "suppressed", "trace")
+    __slots__ = ("defects", "suppressed", "trace", "pending")
 
     def __init__(self, defects):
         self.defects = frozenset(defects)
         self.suppressed = set()
         self.trace = set()
+        self.pending = None       # first SpecRaises met; raised at the end so that SpecUndefined wins
 
 
 # ----------------------------------------------------------------------------- helpers
@@ -183,7 +188,10 @@ def match(op, term, value):
         _METHODS = {"=": M.EQUALS, "^": M.STARTS_WITH, "$": M.ENDS_WITH, "%": M.CONTAINS,
                     ">": M.GREATER_THAN, "<": M.LESS_THAN, ">=": M.GREATER_THAN_OR_EQUAL,
                     "<=": M.LESS_THAN_OR_EQUAL, "=~": M.REGEX}
-    return bool(Searches.search_matches(_METHODS[op], str(term), value))
+    try:
+        return bool(Searches.search_matches(_METHODS[op], str(term), value))
+    except Exception as ex:          # e.g. re.error for an invalid expression
+        raise MatchRaised("%s(%s)" % (type(ex).__name__, ex))
 
 
 _PLAIN_PART = re.compile(r"^[A-Za-z0-9_]+$")
@@ -237,10 +245,6 @@ def _elem_result(seq, i, base_tags):
 
 _VC = frozenset(["virtual-continuation"])
 _NONE = frozenset()
-
-
-def _t(r, *tags):
-    return r.from_code | frozenset(tags) if tags else r.from_code
 
 
 # ----------------------------------------------------------------------------- one segment on one node
@@ -306,7 +310,8 @@ def _key(k, r, tl, ctx, base):
             return []
         if not tl:
             # C: pass-through is disabled when the caller forbids list traversal ('**' probe)
-            ctx.suppressed.add("key-no-traverse")
+            if _key(k, r, True, _Ctx(()), base):
+                ctx.suppressed.add("key-no-traverse")     # (only when it withheld something)
             return []
         # D: "Array-of-Hashes Pass-Through Selection": the same KEY applied to every element, in order
         ctx.trace.add("key/pass-through")
@@ -341,14 +346,17 @@ def _index(i, r, ctx, base):
         # C: indexing a set is refused with a YAMLPathException
         raise SpecRaises("YAMLPathException", "index-on-set")
     if is_map(node):
-        # C: INDEX on a map selects nothing
-        ctx.suppressed.add("index-on-map")
+        # C: INDEX on a map selects nothing (not even a key of that number)
+        if n in node or str(n) in node:
+            ctx.suppressed.add("index-on-map")
         return []
     return []
 
 
 def _slice(lo, hi, r, ctx, base):
     node = r.node
+    if isinstance(node, VList):
+        raise SpecUndefined("slice of a virtual (slice/collector) result")
     if is_seq(node):
         a, b = int_literal(lo), int_literal(hi)
         if a is None or b is None:
@@ -447,7 +455,8 @@ def _search(seg, r, tl, ctx, base):
     if is_seq(node):
         if not tl:
             # C: a search never descends into a list when traversal is forbidden ('**' probe)
-            ctx.suppressed.add("search-no-traverse")
+            if _search(seg, r, True, _Ctx(()), base):
+                ctx.suppressed.add("search-no-traverse")  # (only when it withheld something)
             return []
         out = []
         if attr == ".":
@@ -523,6 +532,16 @@ def _search(seg, r, tl, ctx, base):
     return []
 
 
+def _probe(segs, i, r, tl, ctx):
+    """_select, but an expected library exception is remembered (raised at the end of the query)."""
+    try:
+        return _select(segs, i, r, tl, ctx)
+    except SpecRaises as sr:
+        if ctx.pending is None:
+            ctx.pending = sr
+        return []
+
+
 def _first_descendant(attr, r, ctx):
     res = _eval(attr_segments(attr), 0, [r], ctx)
     return res[0] if res else None
@@ -552,7 +571,7 @@ def _match_all(segs, i, r, ctx, base):
     else:
         kids = [Result(c, node, ref, False, base) for c, ref in _children(node)]
     for kid in kids:
-        if _select(segs, i + 1, kid, True, ctx):
+        if _probe(segs, i + 1, kid, True, ctx):
             out.append(kid)
     return out
 
@@ -594,7 +613,7 @@ def _traverse(segs, i, r, ctx, base):
     out = []
 
     def walk(cur):
-        hits = _select(segs, i + 1, cur, False, ctx)
+        hits = _probe(segs, i + 1, cur, False, ctx)
         if hits:
             # defect model "traverse-duplicate": once per match of the next segment
             out.extend([cur] * (len(hits) if dup else 1))
@@ -608,8 +627,9 @@ def _traverse(segs, i, r, ctx, base):
                 e = _elem_result(n, j, cur.from_code)
                 if wrapped:
                     # C: elements of a virtual list are probed but not descended into
-                    if _select(segs, i + 1, e, False, ctx):
-                        out.extend([e] * (len(_select(segs, i + 1, e, False, ctx)) if dup else 1))
+                    hits_e = _probe(segs, i + 1, e, False, ctx)
+                    if hits_e:
+                        out.extend([e] * (len(hits_e) if dup else 1))
                 else:
                     walk(e)
         # D/C: no descent into sets (members are scalars)
@@ -700,7 +720,7 @@ def _eval(segs, i, results, ctx):
         step = collector_span(segs, i) if segs[i][0] == "coll" and segs[i][1] == "" else 1
         nxt = []
         for r in results:
-            nxt.extend(_select(segs, i, r, True, ctx))
+            nxt.extend(_probe(segs, i, r, True, ctx))
         results = nxt
         i += step
     return results
@@ -709,7 +729,9 @@ def _eval(segs, i, results, ctx):
 def select(seg, node, parent=None, ref=None, traverse_lists=True, defects=()):
     """Ordered Results of ONE segment on ONE node (`*`/`**` as the last segment)."""
     ctx = _Ctx(defects)
-    out = QueryResult(_select([seg], 0, Result(node, parent, ref), traverse_lists, ctx))
+    out = QueryResult(_probe([seg], 0, Result(node, parent, ref), traverse_lists, ctx))
+    if ctx.pending is not None:
+        raise ctx.pending
     out.suppressed = frozenset(ctx.suppressed)
     out.trace = frozenset(ctx.trace)
     return out
@@ -725,6 +747,8 @@ def query(segments, root, defects=()):
         out.suppressed = frozenset(["null-document"])
         return out
     out = QueryResult(_eval(segs, 0, [Result(root, None, None)], ctx))
+    if ctx.pending is not None:
+        raise ctx.pending
     out.suppressed = frozenset(ctx.suppressed)
     out.trace = frozenset(ctx.trace)
     return out
